@@ -36,6 +36,9 @@ def gen_case(rng, i):
     spec_tokens = [USER, 'HOSTTOKEN', 'IPTOKEN', 'CWDTOKEN', 'HOMETOKEN/.toolrc', 'HOMETOKEN'] + GC.today_tokens() if mix else []
     if not mix and rng.random() < 0.25:
         spec_tokens = GC.near_dates()          # dates close to the run, but outside the window gentest treats as "now"
+    if mix and rng.random() < 0.5:
+        # the command reports where it put things: the directory it runs in next to its (per-run) temporary directory
+        spec_tokens = spec_tokens + ['copied CWDTOKEN/in.txt to %s/out.txt' % GC.TMPDIR_TOKEN, GC.TMPDIR_TOKEN + '/scratch', 'CWDTOKEN/data -> ' + GC.TMPDIR_TOKEN]
     spec = GC.gen_command(rng, spec_tokens, i)
     if spec_tokens and not mix:
         near = spec_tokens
@@ -70,7 +73,8 @@ def gen_case(rng, i):
         cmd_tail = rng.choice([" 'x\"\"\"y'", ' "it\'s"', " back\\\\slash", " 'bs\\x'", " 'ends\\'", ' ünï', ' # note \"\"\"', " '%s %d'", ' a  b'])
     case = {'spec': spec, 'flags': flags, 'iterations': it, 'script': script, 'refmode': refmode, 'decoys': rng.random() < 0.7,
             'cmd_tail': cmd_tail, 'linked_store': rng.random() < 0.15,
-            'previous_generation': rng.random() < 0.2, 'flags_first': rng.random() < 0.5, 'old_decoys': rng.random() < 0.6}
+            'previous_generation': rng.random() < 0.2, 'flags_first': rng.random() < 0.5, 'old_decoys': rng.random() < 0.6,
+            'cwd_in_home': rng.random() < 0.5}         # the working directory lies inside $HOME (as most do)
     if rng.random() < 0.2:
         # the same request put through gentest's question-and-answer wizard (`tdda gentest` with no parameters),
         # which alone offers to switch off the tracking of files written under gentest's $TMPDIR
@@ -107,10 +111,10 @@ def generate(ctx, case, tag='g'):
     rec = ctx.rec
     root = os.path.join(ctx.scratch, 'gt_' + tag)
     shutil.rmtree(root, ignore_errors=True)
-    workdir = os.path.join(root, 'work')
     home = os.path.join(root, 'home')
-    os.makedirs(workdir)
+    workdir = os.path.join(home, 'proj', 'work') if case.get('cwd_in_home') else os.path.join(root, 'work')
     os.makedirs(home)
+    os.makedirs(workdir)
     spec = case['spec']
     toks = machine_tokens(workdir, home)
     # late-bind the host/cwd placeholders the generator could not know
@@ -140,7 +144,7 @@ def generate(ctx, case, tag='g'):
         with open(os.path.join(root, 'store', 'lookup.csv'), 'w') as f:
             f.write('k,v\n1,one\n')
         os.utime(os.path.join(root, 'store', 'lookup.csv'), (1500000000, 1500000000))
-        os.symlink(os.path.join('..', 'store'), os.path.join(workdir, 'linked'))
+        os.symlink(os.path.relpath(os.path.join(root, 'store'), workdir), os.path.join(workdir, 'linked'))
     env = {'LOGNAME': USER, 'USER': USER, 'HOME': home, 'TDDA_FAIL_DIR': os.path.join(root, 'fail')}
     os.makedirs(env['TDDA_FAIL_DIR'])
     try:
